@@ -56,7 +56,8 @@ def main(argv=None):
               "extra_pre": args.extra_pre, "status": "error", "paths": 0, "exhausted": False,
               "messages": [], "counterexample": None}
     try:
-        from vlib import chplugin
+        from vlib import chplugin, nolog
+        nolog.install()
         chplugin.install()
         from crosshair.condition_parser import (Conditions, condition_from_source_text,
                                                 PRECONDITION, POSTCONDITION, default_counterexample)
@@ -113,6 +114,7 @@ def main(argv=None):
         messages = list(checkable.analyze())
         result["cpu_s"] = round(time.process_time() - cpu0, 3)
         result["paths"] = stats["num_paths"]
+        result["logging_statements_stubbed"] = sum(nolog.STRIPPED.values())
         
         status = "unknown"
         for m in messages:
